@@ -8,7 +8,7 @@ use super::*;
 #[cfg(not(kani))]
 use crate::verif_contracts::kani;
 use crate::index::entry::Entry;
-use ordinals::{Cenotaph, Flaw};
+use crate::verif_contracts::varint_contract as vc;
 
 fn any_txid() -> Txid {
   Txid::from_byte_array(kani::any::<[u8; 32]>())
@@ -23,7 +23,7 @@ fn any_rune_entry() -> RuneEntry {
     block: kani::any(),
     burned: kani::any(),
     divisibility: kani::any(),
-    etching: any_txid(),
+    etching: Txid::all_zeros(), // store/load of the txid bytes is C35 (c35_rune_entry_round_trip); not re-done here
     mints: kani::any(),
     number: kani::any(),
     premine: kani::any(),
@@ -110,10 +110,11 @@ fn forget<T>(r: Result<T>) -> Option<T> {
 /// returned is the terms' amount.  With RuneEntry::mintable's contract (mints < cap required,
 /// c10_mintable_exact) the count can never pass the cap.
 //# props: C10
+//# tier: thorough
 //# kind: complete (every rune entry, rune id, queried id and height; the table holds zero or one entry - other keys are untouched by the finite-map contract of the table)
 //# fns: index::updater::rune_updater::RuneUpdater::mint
 //# assume: redb::Table behaves as a finite map (shim contracts/ord/shim/env.rs)
-//# timeout: 900
+//# timeout: 1800
 #[cfg_attr(kani, kani::proof)]
 #[cfg_attr(kani, kani::unwind(4))]
 pub fn c10_mint_step() {
@@ -122,7 +123,7 @@ pub fn c10_mint_step() {
   let e0 = any_rune_entry();
   let present: bool = kani::any();
   if present {
-    w.id_to_entry.entries.push((k0.store(), e0.store()));
+    w.id_to_entry.put(k0.store(), e0.store());
   }
   let id = RuneId { block: kani::any(), tx: kani::any() };
   let height: u32 = kani::any();
@@ -137,9 +138,10 @@ pub fn c10_mint_step() {
     Some(lot) => {
       assert!(hit, "C10.mint.unknown_rune_has_no_effect");
       assert!(verdict == Ok(lot.n()), "C10.mint.only_when_terms_allow_and_amount_is_terms_amount");
-      assert!(w.id_to_entry.inserts == 1 && w.id_to_entry.entries.len() == 1, "C10.mint.writes_exactly_one_entry");
-      let after = RuneEntry::load(w.id_to_entry.entries[0].1);
-      assert!(w.id_to_entry.entries[0].0 == k0.store(), "C10.mint.writes_the_minted_rune");
+      assert!(w.id_to_entry.inserts == 1 && w.id_to_entry.len() == 1, "C10.mint.writes_exactly_one_entry");
+      let stored = w.id_to_entry.peek(&k0.store());
+      assert!(stored.is_some(), "C10.mint.writes_the_minted_rune");
+      let after = RuneEntry::load(*stored.unwrap());
       assert!(after.mints == e0.mints + 1, "C10.mint.count_grows_by_exactly_one");
       let mut expect = e0;
       expect.mints = after.mints;
@@ -157,198 +159,16 @@ pub fn c10_mint_step() {
   kani::cover!(hit && got.is_none(), "known rune, mint refused");
 }
 
-// ------------------------------------------------------------------------------------------ C11
-
-fn any_artifact() -> Artifact {
-  let named: Option<Rune> = if kani::any() { Some(Rune(kani::any())) } else { None };
-  if kani::any() {
-    let etching = if kani::any() {
-      Some(Etching {
-        divisibility: kani::any(),
-        premine: kani::any(),
-        rune: named,
-        spacers: kani::any(),
-        symbol: kani::any(),
-        terms: if kani::any() { Some(any_terms()) } else { None },
-        turbo: kani::any(),
-      })
-    } else {
-      None
-    };
-    Artifact::Runestone(Runestone { edicts: Vec::new(), etching, mint: None, pointer: None })
-  } else {
-    Artifact::Cenotaph(Cenotaph { etching: named, flaw: Some(Flaw::Varint), mint: None })
-  }
-}
-
-/// etched(): a rune is created only by an artifact that carries an etching; a NAMED etching succeeds
-/// exactly when the name is at or above the block's minimum, not reserved, not taken, and the
-/// transaction commits to it (commitment check under its assumed contract: both answers explored);
-/// an UNNAMED etching in a runestone gets Rune::reserved(height, tx index) and bumps the reserved
-/// counter by one; an unnamed etching in a cenotaph creates nothing (a cenotaph keeps only an etched
-/// NAME).  The id is (height, tx index).
-//# props: C11
-//# kind: complete (every artifact shape and field value, minimum, height, tx index, every state of the name table with zero or one entry and of the reserved counter)
-//# fns: index::updater::rune_updater::RuneUpdater::etched
-//# assume: redb::Table behaves as a finite map; tx_commits_to_rune (RPC + tapscript scan, not under contract) returns a harness-chosen boolean
-//# timeout: 900
-#[cfg_attr(kani, kani::proof)]
-#[cfg_attr(kani, kani::unwind(4))]
-pub fn c11_etched_exact() {
-  let mut w = World::new();
-  let taken = Rune(kani::any());
-  let has_taken: bool = kani::any();
-  if has_taken {
-    w.rune_to_id.entries.push((taken.0, (kani::any(), kani::any())));
-  }
-  let reserved_before: Option<u64> = kani::any();
-  if let Some(r) = reserved_before {
-    kani::assume(r < u64::MAX);
-    w.statistic_to_count.entries.push((Statistic::ReservedRunes.into(), r));
-  }
-  let commits: bool = kani::any();
-  unsafe { TX_COMMITS = commits };
-  let minimum = Rune(kani::any());
-  let height: u32 = kani::any();
-  let tx_index: u32 = kani::any();
-  let artifact = any_artifact();
-  let tx = empty_tx();
-  let mut u = w.updater(height, minimum, 0, 0, false);
-  let got = forget(u.etched(tx_index, &tx, &artifact));
-  std::mem::forget(u);
-  assert!(got.is_some(), "C16.etched.never_errors");
-  let got = got.unwrap();
-  // what the artifact asks for
-  let (has_etching, name, is_cenotaph) = match &artifact {
-    Artifact::Runestone(r) => (r.etching.is_some(), r.etching.and_then(|e| e.rune), false),
-    Artifact::Cenotaph(c) => (c.etching.is_some(), c.etching, true),
-  };
-  let reserved_after = w.statistic_to_count.peek(&Statistic::ReservedRunes.into()).copied();
-  match got {
-    Some((id, rune)) => {
-      assert!(has_etching, "C11.etched.only_artifacts_with_an_etching_create_runes");
-      assert!(id == RuneId { block: u64::from(height), tx: tx_index }, "C11.etched.id_is_block_and_tx_index");
-      match name {
-        Some(n) => {
-          assert!(rune == n, "C11.etched.named_etching_keeps_its_name");
-          assert!(n >= minimum, "C11.etched.name_at_or_above_minimum");
-          assert!(!n.is_reserved(), "C11.etched.name_not_reserved");
-          assert!(!(has_taken && taken == n), "C11.etched.name_not_taken");
-          assert!(commits, "C11.etched.transaction_commits_to_name");
-          assert!(reserved_after == reserved_before, "C11.etched.named_etching_leaves_reserved_counter");
-        }
-        None => {
-          assert!(!is_cenotaph, "C11.etched.unnamed_etching_in_cenotaph_creates_nothing");
-          assert!(rune == Rune::reserved(u64::from(height), tx_index), "C11.etched.unnamed_etching_gets_reserved_name");
-          assert!(reserved_after == Some(reserved_before.unwrap_or(0) + 1), "C11.etched.reserved_counter_grows_by_one");
-        }
-      }
-    }
-    None => {
-      let named_ok = match name {
-        Some(n) => n >= minimum && !n.is_reserved() && !(has_taken && taken == n) && commits,
-        None => false,
-      };
-      let unnamed_ok = has_etching && name.is_none() && !is_cenotaph;
-      assert!(!named_ok && !unnamed_ok, "C11.etched.valid_etching_creates_a_rune");
-      assert!(reserved_after == reserved_before, "C11.etched.refused_etching_leaves_reserved_counter");
-    }
-  }
-  assert!(w.rune_to_id.inserts == 0, "C11.etched.does_not_touch_the_name_table");
-  std::mem::forget(artifact);
-  std::mem::forget(tx);
-  kani::cover!(matches!(got, Some(_)) && name.is_some(), "named etching accepted");
-  kani::cover!(matches!(got, Some(_)) && name.is_none(), "reserved name assigned");
-}
-
-/// create_rune_entry(): the new rune's number is the old rune count, the count grows by one and is
-/// written to the Runes statistic; name -> id, txid -> name and id -> entry receive the same
-/// (name, id); the entry carries the etching's fields (a cenotaph's entry has no terms, premine 0,
-/// divisibility 0, no symbol, spacers 0); one RuneEtched event is sent when a receiver is attached;
-/// the inscription-to-rune link is written iff the reveal transaction's first inscription is known.
-//# props: C11, C37
-//# kind: complete (every artifact with an etching, id, name, txid, counters; empty name/id tables - other keys are untouched by the finite-map contract)
-//# fns: index::updater::rune_updater::RuneUpdater::create_rune_entry
-//# assume: redb::Table behaves as a finite map; mpsc::Sender delivers in order
-//# timeout: 900
-#[cfg_attr(kani, kani::proof)]
-#[cfg_attr(kani, kani::unwind(4))]
-pub fn c11_create_rune_entry_exact() {
-  let mut w = World::new();
-  let txid = any_txid();
-  let seq: Option<u32> = kani::any();
-  if let Some(s) = seq {
-    w.inscription_id_to_sequence_number.entries.push((InscriptionId { txid, index: 0 }.store(), s));
-  }
-  let artifact = any_artifact();
-  let etching = match &artifact {
-    Artifact::Runestone(r) => {
-      kani::assume(r.etching.is_some());
-      r.etching
-    }
-    Artifact::Cenotaph(_) => None,
-  };
-  let id = RuneId { block: kani::any(), tx: kani::any() };
-  let rune = Rune(kani::any());
-  let runes: u64 = kani::any();
-  kani::assume(runes < u64::MAX);
-  let block_time: u32 = kani::any();
-  let height: u32 = kani::any();
-  let events: bool = kani::any();
-  let mut u = w.updater(height, Rune(0), runes, block_time, events);
-  let ok = forget(u.create_rune_entry(txid, &artifact, id, rune)).is_some();
-  let runes_after = u.runes;
-  std::mem::forget(u);
-  assert!(ok, "C16.create_rune_entry.never_errors");
-  assert!(runes_after == runes + 1, "C11.create.rune_count_grows_by_one");
-  assert!(w.statistic_to_count.peek(&Statistic::Runes.into()) == Some(&(runes + 1)), "C11.create.runes_statistic_is_new_count");
-  assert!(w.rune_to_id.entries.len() == 1 && w.rune_to_id.entries[0] == (rune.0, id.store()), "C11.create.name_maps_to_id");
-  assert!(w.transaction_id_to_rune.entries.len() == 1 && w.transaction_id_to_rune.entries[0] == (txid.store(), rune.0), "C11.create.txid_maps_to_name");
-  assert!(w.id_to_entry.entries.len() == 1 && w.id_to_entry.entries[0].0 == id.store(), "C11.create.id_maps_to_entry");
-  let e = RuneEntry::load(w.id_to_entry.entries[0].1);
-  assert!(e.number == runes, "C11.create.number_is_old_count");
-  assert!(e.block == id.block && e.etching == txid && e.spaced_rune.rune == rune, "C11.create.entry_names_block_txid_rune");
-  assert!(e.mints == 0 && e.burned == 0 && e.timestamp == u64::from(block_time), "C11.create.entry_starts_with_no_mints_or_burns");
-  match etching {
-    None => assert!(
-      e.terms.is_none() && e.premine == 0 && e.divisibility == 0 && e.symbol.is_none() && e.spaced_rune.spacers == 0 && !e.turbo,
-      "C11.create.cenotaph_entry_has_no_terms_and_no_premine"
-    ),
-    Some(t) => assert!(
-      e.terms == t.terms
-        && e.premine == t.premine.unwrap_or_default()
-        && e.divisibility == t.divisibility.unwrap_or_default()
-        && e.symbol == t.symbol
-        && e.spaced_rune.spacers == t.spacers.unwrap_or_default()
-        && e.turbo == t.turbo,
-      "C11.create.entry_carries_the_etching_fields"
-    ),
-  }
-  {
-    let sent = w.sender.sent.borrow();
-    if events {
-      assert!(sent.len() == 1 && sent[0] == Event::RuneEtched { block_height: height, txid, rune_id: id }, "C37.create.one_rune_etched_event");
-    } else {
-      assert!(sent.is_empty(), "C37.create.no_event_without_receiver");
-    }
-  }
-  match seq {
-    Some(s) => assert!(w.sequence_number_to_rune_id.entries.len() == 1 && w.sequence_number_to_rune_id.entries[0] == (s, id.store()), "C11.create.inscription_linked_to_rune"),
-    None => assert!(w.sequence_number_to_rune_id.entries.is_empty(), "C11.create.no_link_without_inscription"),
-  }
-  std::mem::forget(artifact);
-  std::mem::forget(w);
-}
-
 // ------------------------------------------------------------------------------------------ C08
 
 /// update(): every rune's accumulated burn of the block is added to its entry's `burned`, nothing
 /// else in the entry changes, no other entry is written.
 //# props: C08
+//# tier: thorough
 //# kind: bounded(one or two runes burned in the block; every entry field and amount symbolic, within the supply invariant burned + amount <= u128::MAX)
 //# fns: index::updater::rune_updater::RuneUpdater::update
 //# assume: redb::Table and HashMap behave as finite maps (shims)
-//# timeout: 900
+//# timeout: 1800
 #[cfg_attr(kani, kani::proof)]
 #[cfg_attr(kani, kani::unwind(5))]
 pub fn c08_update_adds_burns() {
@@ -358,8 +178,8 @@ pub fn c08_update_adds_burns() {
   kani::assume(a != b);
   let ea = any_rune_entry();
   let eb = any_rune_entry();
-  w.id_to_entry.entries.push((a.store(), ea.store()));
-  w.id_to_entry.entries.push((b.store(), eb.store()));
+  w.id_to_entry.put(a.store(), ea.store());
+  w.id_to_entry.put(b.store(), eb.store());
   let two: bool = kani::any();
   let (xa, xb): (u128, u128) = (kani::any(), kani::any());
   // supply invariant (C08): what is burned was part of the supply, which fits u128
@@ -371,7 +191,7 @@ pub fn c08_update_adds_burns() {
   }
   let ok = forget(u.update()).is_some();
   assert!(ok, "C16.update.never_errors");
-  assert!(w.id_to_entry.entries.len() == 2, "C08.update.no_entry_created_or_removed");
+  assert!(w.id_to_entry.len() == 2, "C08.update.no_entry_created_or_removed");
   let na = RuneEntry::load(*w.id_to_entry.peek(&a.store()).unwrap());
   let nb = RuneEntry::load(*w.id_to_entry.peek(&b.store()).unwrap());
   let mut wa = ea;
@@ -382,5 +202,64 @@ pub fn c08_update_adds_burns() {
   }
   assert!(na == wa, "C08.update.burned_total_grows_by_the_blocks_burn");
   assert!(nb == wb, "C08.update.other_entries_unchanged");
+  std::mem::forget(w);
+}
+
+/// unallocated(tx): the balances stored for the spent outpoints are removed from the table and
+/// returned summed per rune id - nothing else is touched, nothing is invented (C08: rune balances
+/// appear only through premine and mints; here they are only moved).
+//# props: C08
+//# tier: thorough
+//# kind: bounded(two inputs; the first spends an outpoint holding 1 or 2 stored balances, the second an outpoint with none; ids and amounts symbolic within the supply invariant)
+//# fns: index::updater::rune_updater::RuneUpdater::unallocated, index::Index::decode_rune_balance
+//# assume: redb::Table and HashMap behave as finite maps (shims); ordinals::varint::decode satisfies the contract proved by the C26 harnesses
+//# timeout: 1800
+#[cfg_attr(kani, kani::proof)]
+#[cfg_attr(kani, kani::unwind(5))]
+#[cfg_attr(kani, kani::stub(ordinals::varint::decode, vc::decode))]
+#[cfg_attr(kani, kani::stub(std::backtrace::Backtrace::capture, vc::backtrace_disabled))]
+pub fn c08_unallocated_moves_input_balances() {
+  vc::reset();
+  let mut w = World::new();
+  let spent = OutPoint { txid: any_txid(), vout: kani::any() };
+  let other = OutPoint { txid: any_txid(), vout: kani::any() };
+  kani::assume(spent != other);
+  // the stored balance list: 1 or 2 (id, amount) records, each three varints
+  let two: bool = kani::any();
+  let id1 = RuneId { block: kani::any(), tx: kani::any() };
+  let id2 = RuneId { block: kani::any(), tx: kani::any() };
+  let (b1, b2): (u128, u128) = (kani::any(), kani::any());
+  kani::assume(b1.checked_add(b2).is_some());
+  let raw: [u8; 68] = kani::any();
+  let mut buffer = raw.to_vec();
+  let mut n = vc::declare(0, u128::from(id1.block), &buffer);
+  n += vc::declare(n, u128::from(id1.tx), &buffer);
+  n += vc::declare(n, b1, &buffer);
+  if two {
+    n += vc::declare(n, u128::from(id2.block), &buffer);
+    n += vc::declare(n, u128::from(id2.tx), &buffer);
+    n += vc::declare(n, b2, &buffer);
+  }
+  buffer.truncate(n);
+  w.outpoint_to_balances.put(spent.store(), buffer);
+  let mut tx = empty_tx();
+  tx.input.push(TxIn { previous_output: spent, script_sig: ScriptBuf::new(), sequence: Sequence::MAX, witness: Witness::new() });
+  tx.input.push(TxIn { previous_output: other, script_sig: ScriptBuf::new(), sequence: Sequence::MAX, witness: Witness::new() });
+  let mut u = w.updater(0, Rune(0), 0, 0, false);
+  let got = forget(u.unallocated(&tx));
+  std::mem::forget(u);
+  std::mem::forget(tx);
+  assert!(got.is_some(), "C16.unallocated.never_errors_on_well_formed_balances");
+  let got = got.unwrap();
+  assert!(w.outpoint_to_balances.is_empty(), "C08.unallocated.spent_outpoint_balances_are_removed");
+  assert!(w.outpoint_to_balances.removes == 2 && w.outpoint_to_balances.inserts == 0, "C08.unallocated.one_removal_per_input_no_writes");
+  if two && id1 == id2 {
+    assert!(got.len() == 1 && got.get(&id1) == Some(&Lot(b1 + b2)), "C08.unallocated.same_rune_balances_are_summed");
+  } else if two {
+    assert!(got.len() == 2 && got.get(&id1) == Some(&Lot(b1)) && got.get(&id2) == Some(&Lot(b2)), "C08.unallocated.each_rune_keeps_its_balance");
+  } else {
+    assert!(got.len() == 1 && got.get(&id1) == Some(&Lot(b1)), "C08.unallocated.single_balance_returned");
+  }
+  std::mem::forget(got);
   std::mem::forget(w);
 }
